@@ -379,51 +379,7 @@ func runC03(c *core.Ctx) {
 		c.Missing(gslb + ".SubCluster.balance")
 	}
 
-	// ---- randomSelectExclude: both loops use the same 3-conjunct predicate -
-	if fn := c.P.Func(gslb, "BalanceGslb.randomSelectExclude"); fn == nil {
-		c.Missing(gslb + ".BalanceGslb.randomSelectExclude")
-	} else {
-		c.Analysed(core.FuncKey(fn))
-		// collect, per loop body, the set of predicate conjunct kinds guarding (a) the count increment, (b) the success return
-		want := []string{"!=exclude", "weight>=0", "sType!=blackhole"}
-		sites := 0
-		check := func(in ssa.Instruction, what string) {
-			sites++
-			got := map[string]bool{}
-			for _, g := range core.GuardsAt(in.Block()) {
-				b, ok := g.Cond.(*ssa.BinOp)
-				if !ok {
-					continue
-				}
-				switch {
-				case fieldLoadOf(b.X, "weight") != nil && isZero(b.Y) && ((b.Op == token.GEQ && g.Pol) || (b.Op == token.LSS && !g.Pol) || (b.Op == token.GTR && g.Pol)):
-					got["weight>=0"] = true
-				case fieldLoadOf(b.X, "sType") != nil && ((b.Op == token.NEQ && g.Pol) || (b.Op == token.EQL && !g.Pol)) && strings.Contains(core.Render(b.Y), "1"):
-					got["sType!=blackhole"] = true
-				case ((b.Op == token.NEQ && g.Pol) || (b.Op == token.EQL && !g.Pol)) && (core.Render(b.Y) == "excludeCluster" || core.Render(b.X) == "excludeCluster"):
-					got["!=exclude"] = true
-				}
-			}
-			var missing []string
-			for _, w := range want {
-				if !got[w] {
-					missing = append(missing, w)
-				}
-			}
-			c.Check("exclude-predicate", "randomSelectExclude:"+what, in.Pos(), len(missing) == 0, "cross-retry candidate predicate lacks conjunct(s) "+strings.Join(missing, ", ")+" at the "+what)
-		}
-		for _, in := range allInstrs(fn) {
-			if b, ok := in.(*ssa.BinOp); ok && b.Op == token.ADD && strings.HasPrefix(core.Render(b.X), "available") {
-				check(in, "count")
-			}
-			if r, ok := in.(*ssa.Return); ok && isNilConst(core.RetVals(r)[1]) {
-				check(in, "selection")
-			}
-		}
-		if sites < 2 {
-			c.Check("exclude-predicate", "randomSelectExclude:sites", fn.Pos(), false, fmt.Sprintf("expected a counting site and a selecting site, found %d", sites))
-		}
-	}
+	checkExcludePredicate(c, "exclude-predicate")
 
 	// ---- subClusterBalance walk skips weight <= 0 --------------------------
 	if fn := c.P.Func(gslb, "BalanceGslb.subClusterBalance"); fn == nil {
@@ -621,4 +577,59 @@ func errKnownNonNil(v ssa.Value, b *ssa.BasicBlock) bool {
 		}
 		return (bo.Op == token.NEQ && g.Pol) || (bo.Op == token.EQL && !g.Pol)
 	})
+}
+
+// checkExcludePredicate: in BalanceGslb.randomSelectExclude both the counting
+// site and every success return are guarded by the three-conjunct predicate
+// (!= exclude, weight >= 0, sType != blackhole). Shared by C03 (never an
+// ineligible target) and C08 (a cross retry never returns to the assigned
+// sub-cluster).
+func checkExcludePredicate(c *core.Ctx, rule string) {
+	const gslb = "bfe_balance/bal_gslb"
+	// ---- randomSelectExclude: both loops use the same 3-conjunct predicate -
+	if fn := c.P.Func(gslb, "BalanceGslb.randomSelectExclude"); fn == nil {
+		c.Missing(gslb + ".BalanceGslb.randomSelectExclude")
+	} else {
+		c.Analysed(core.FuncKey(fn))
+		// collect, per loop body, the set of predicate conjunct kinds guarding (a) the count increment, (b) the success return
+		want := []string{"!=exclude", "weight>=0", "sType!=blackhole"}
+		sites := 0
+		check := func(in ssa.Instruction, what string) {
+			sites++
+			got := map[string]bool{}
+			for _, g := range core.GuardsAt(in.Block()) {
+				b, ok := g.Cond.(*ssa.BinOp)
+				if !ok {
+					continue
+				}
+				switch {
+				case fieldLoadOf(b.X, "weight") != nil && isZero(b.Y) && ((b.Op == token.GEQ && g.Pol) || (b.Op == token.LSS && !g.Pol) || (b.Op == token.GTR && g.Pol)):
+					got["weight>=0"] = true
+				case fieldLoadOf(b.X, "sType") != nil && ((b.Op == token.NEQ && g.Pol) || (b.Op == token.EQL && !g.Pol)) && strings.Contains(core.Render(b.Y), "1"):
+					got["sType!=blackhole"] = true
+				case ((b.Op == token.NEQ && g.Pol) || (b.Op == token.EQL && !g.Pol)) && (core.Render(b.Y) == "excludeCluster" || core.Render(b.X) == "excludeCluster"):
+					got["!=exclude"] = true
+				}
+			}
+			var missing []string
+			for _, w := range want {
+				if !got[w] {
+					missing = append(missing, w)
+				}
+			}
+			c.Check(rule, "randomSelectExclude:"+what, in.Pos(), len(missing) == 0, "cross-retry candidate predicate lacks conjunct(s) "+strings.Join(missing, ", ")+" at the "+what)
+		}
+		for _, in := range allInstrs(fn) {
+			if b, ok := in.(*ssa.BinOp); ok && b.Op == token.ADD && strings.HasPrefix(core.Render(b.X), "available") {
+				check(in, "count")
+			}
+			if r, ok := in.(*ssa.Return); ok && isNilConst(core.RetVals(r)[1]) {
+				check(in, "selection")
+			}
+		}
+		if sites < 2 {
+			c.Check(rule, "randomSelectExclude:sites", fn.Pos(), false, fmt.Sprintf("expected a counting site and a selecting site, found %d", sites))
+		}
+	}
+
 }
